@@ -7,7 +7,8 @@ MODULE = 'Bluebell.Props.C01'
 THEOREMS = ['Bluebell.C01_counterexample_attachment_prefix', 'Bluebell.C01_counterexample_marker_char', 'Bluebell.C01_counterexample_attr_name', 'Bluebell.C01_not_full', 'Bluebell.C01_maker_total', 'Bluebell.C01_normalise_total_on_roots', 'Bluebell.C01_eids_titles_total',
             'Bluebell.C01_grammar_certificate', 'Bluebell.C01_parser_terminates', 'Bluebell.C01_roots_are_rules',
             'Bluebell.peg_terminates', 'Bluebell.eval_mono', 'Bluebell.eval_span',
-            'Bluebell.C01_flat_plain_text_accepted', 'Bluebell.C01_plain_starts', 'Bluebell.flat_doc_accepted']
+            'Bluebell.C01_flat_plain_text_accepted', 'Bluebell.C01_plain_starts', 'Bluebell.flat_doc_accepted',
+            'Bluebell.C01_nested_plain_text_accepted', 'Bluebell.nested_doc_accepted']
 
 
 def run(ctx, info):
